@@ -65,11 +65,12 @@ func (m *mon) receive(c *cfg, x msg) {
 	}
 }
 
-func (m *mon) power(c *cfg, mask uint8) uint {
+// power of a set of senders AT HEIGHT h (the height of the messages that are being weighed).
+func (m *mon) power(c *cfg, mask uint8, h int) uint {
 	var p uint
 	for i := 0; i < c.n; i++ {
 		if mask&(1<<uint(i)) != 0 {
-			p += c.powers[i]
+			p += c.powersH[h][i]
 		}
 	}
 	return p
@@ -97,7 +98,7 @@ func (m *mon) onPrevote(c *cfg, x msg) (string, string) {
 			if vr >= 0 {
 				vr += r / hStride * hStride // the proposal's valid round is a round of the same height
 			}
-			if pv == x.val && vr >= int(m.lastPCr) && vr < r && m.power(c, m.pvRecv[vr][x.val+1]) >= c.q {
+			if pv == x.val && vr >= int(m.lastPCr) && vr < r && m.power(c, m.pvRecv[vr][x.val+1], vr/hStride) >= c.qH[vr/hStride] {
 				ok = true
 			}
 		}
